@@ -1493,7 +1493,10 @@ def np_put(interp, name, args, kw, st, node):
 
 @reg("numpy.fill_diagonal")
 def np_fill_diagonal(interp, name, args, kw, st, node):
-    a, v = arrv(args[0]), args[1]
+    b = bind(["a", "val", "wrap"], args, kw)
+    a, v = arrv(b["a"]), b["val"]
+    for k_ in ("a", "val"):
+        kw.pop(k_, None)
     interp.event("mutate", node, st, how="fill_diagonal", target=a, value=v, targetsrc="arg0")
     new = a.replace(term=T("fill_diagonal", a.term, v.term), labels=a.labels | v.labels)
     interp.rebind(a, new, st)
